@@ -422,7 +422,7 @@ Judge(pre, A, gh, c, res, post, B) ==
               [] c.op = "DeleteObject" -> eff(DOMAIN post.objs = DOMAIN pre.objs \ {c.id} /\ res.ok = (c.id \in DOMAIN pre.objs))
               [] c.op = "RemoveAnnot" ->
                     eff(newIds = {} /\ goneIds = {}
-                        /\ \A p \in RangeOf(pp0) :
+                        /\ \A p \in RangeOf(pp0) : p \in DOMAIN post.objs /\
                               LET a == pre.objs[p] b == post.objs[p] IN
                               a = b \/ (a.k = "dict" /\ Get(a.v, "Annots").k = "arr"
                                         /\ b = DictO(Put(a.v, "Annots",
